@@ -720,13 +720,16 @@ class _Mark:
     the set is read the next time (see ``_get_in_progress``).
     """
 
-    __slots__ = ("flow", "target", "active")
+    __slots__ = ("flow", "target", "active", "owner")
 
     def __init__(self, flow: Tuple[int, int], target: int) -> None:
         """Initialize an active mark with the given values."""
         self.flow = flow
         self.target = target
         self.active = True
+
+        # The wrapper which set the mark, if that matters (see ``_decorate_new_with_invariants``)
+        self.owner = None  # type: Optional[Callable[..., Any]]
 
 
 def _get_in_progress() -> FrozenSet[_Mark]:
@@ -1143,14 +1146,31 @@ def _decorate_new_with_invariants(new_func: CallableT) -> CallableT:
         # A __new__ of a derived class usually calls the (also wrapped) __new__ of its base and completes the object
         # afterwards. The object does not exist yet, so the class under instantiation is marked instead: only
         # the outermost __new__ hands over a finished object, and only that one checks the invariants.
+        #
+        # The __new__ of a base is a different wrapper. If this very wrapper is entered again for the same class,
+        # the class is being instantiated once more (*e.g.*, a value built on the way), and that is an object
+        # of its own which has to be checked as well.
         in_progress = _get_in_progress()
 
         flow = _current_flow()
-        nested = len(args) > 0 and _is_in_progress(in_progress, flow, id(args[0]))
+
+        nested = False
+        if len(args) > 0:
+            id_of_cls = id(args[0])
+            for other in in_progress:
+                if (
+                    other.active
+                    and other.target == id_of_cls
+                    and other.flow == flow
+                    and other.owner is not wrapper
+                ):
+                    nested = True
+                    break
 
         mark = None  # type: Optional[_Mark]
         if len(args) > 0 and not nested:
             mark = _Mark(flow, id(args[0]))
+            mark.owner = wrapper
             _IN_PROGRESS.set(in_progress | {mark})
 
         try:
